@@ -7,9 +7,9 @@ From Verif Require Import Base.Prelude Model.C30 Proofs.C30.
 Local Open Scope N_scope.
 
 Section Statements.
-  Context {name : Type} (neqb : name -> name -> bool).
+  Context {name pid : Type} (neqb : name -> name -> bool).
   Hypothesis neqb_spec : forall x y, neqb x y = true <-> x = y.
-  Variable gm : bool -> N -> list name -> bool.
+  Variable gm : bool -> pid -> list name -> bool.
 
   (** For EVERY matcher [m] (any trees, any nesting of the combinators) and EVERY directory
       [d]: [Nothing] is answered only if no path strictly below [d] matches;
@@ -17,7 +17,7 @@ Section Statements.
       answer lists every matching direct child file in [files] and the first component of
       every deeper matching path in [dirs]. In prefix-glob mode the oracle must satisfy
       [gm_prefix_closed] (the prefix regexes end in [(?:/|$)]). *)
-  Theorem C30_all : forall m : @matcher name,
+  Theorem C30_all : forall m : @matcher name pid,
     (uses_prefix_globs m = true -> gm_prefix_closed gm) ->
     forall d : list name,
       (mvisit neqb gm m d = VNothing ->
@@ -34,7 +34,7 @@ Section Statements.
 
   (** In particular for every matcher built from an expression by the constructors
       ([FilesMatcher::new], [PrefixMatcher::new], [GlobsMatcherBuilder::build], ...). *)
-  Theorem C30_build : forall e : @mexpr name,
+  Theorem C30_build : forall e : @mexpr name pid,
     (uses_prefix_globs (build neqb e) = true -> gm_prefix_closed gm) ->
     forall d q, q <> [] ->
       visit_allows neqb (mvisit neqb gm (build neqb e) d) q
@@ -50,7 +50,7 @@ Section Statements.
     visit_allows neqb (prefix_visit neqb t d) q (prefix_matches neqb t (d ++ q)) = true.
   Proof. exact (prefix_sound neqb neqb_spec). Qed.
 
-  Theorem C30_base_globs : forall pm (t : @tree name (option (list N))) d q,
+  Theorem C30_base_globs : forall pm (t : @tree name (option (list pid))) d q,
     (pm = true -> gm_prefix_closed gm) -> q <> [] ->
     visit_allows neqb (globs_visit neqb gm pm t d) q (globs_matches neqb gm pm t (d ++ q)) = true.
   Proof. exact (globs_sound neqb neqb_spec gm). Qed.
@@ -106,9 +106,9 @@ Theorem C30_okb_spec : forall c : case,
                     visit_allows N.eqb v q b = true.
 Proof. exact okb_spec. Qed.
 
-Check @C30_all : forall name (neqb : name -> name -> bool),
+Check @C30_all : forall name pid (neqb : name -> name -> bool),
   (forall x y, neqb x y = true <-> x = y) ->
-  forall (gm : bool -> N -> list name -> bool) (m : @matcher name),
+  forall (gm : bool -> pid -> list name -> bool) (m : @matcher name pid),
   (uses_prefix_globs m = true -> gm_prefix_closed gm) ->
   forall d : list name,
     (mvisit neqb gm m d = VNothing -> forall q, q <> [] -> matches neqb gm m (d ++ q) = false) /\
@@ -122,7 +122,7 @@ Check @C30_all : forall name (neqb : name -> name -> bool),
     prefix-closed (pattern 0 = "*": matches every non-empty tail in prefix mode). *)
 Definition ex_gm (pm : bool) (pid : N) (tail : list N) : bool :=
   match tail with [] => false | [_] => true | _ => pm end.
-Definition ex_expr : @mexpr N :=
+Definition ex_expr : @mexpr N N :=
   MDifference (MUnion (MFiles [[1; 2]; [3]]) (MGlobs true [([4], 0)])) (MPrefix [[1; 5]]).
 
 Example C30_nonvacuous :
